@@ -443,7 +443,7 @@ def s_decorator_default_opset(ctx):
     self.fields["_rename_variable"] = ident
     I.models[exp._Exporter._translate_graph_body] = lambda interp, slf, g, opsets, indent=0: "    body"
     I.models[exp._Exporter._translate_node] = lambda interp, slf, n, opsets, indent=0: "    node"
-    I.models[exp._translate_signature] = lambda interp, i, o: "(x):"
+    I.models[exp._translate_signature] = lambda interp, i, o, *a: "(x):"
     I.models[exp._Exporter._translate_function_signature] = lambda interp, slf, f: "(x):"
     I.models[exp._names_used_in_function] = lambda interp, f: []
 
